@@ -2,4 +2,6 @@ import Preflate.Props.C08
 #print axioms Preflate.any_parameters_exact
 #print axioms Preflate.readParams_writeParams
 #print axioms Preflate.estimatorRange_wf
+#print axioms Preflate.estimator_front_in_range
+#print axioms Preflate.no_references_no_dictionary
 #print axioms Preflate.param_layout_matches_source
